@@ -106,12 +106,41 @@ static void dom_polar(int r, int k, U64Vec *out) {
         uv_free(&s);
     }
 }
-// FINE(r): level 0 = whole family closed under one neighbour step; higher levels are thinned; all levels include POLAR(r,3)
+// MIX(r): digit strings cut out of a de Bruijn sequence of order 2 over the digits 0..6 (every ordered pair of digit values occurs, at
+// every position as the window slides), under the pentagon base cells and every 7th other base cell: interior cells of no particular
+// geometric significance whose digit patterns are varied (bit-manipulation and rotation code is digit-position specific)
+static void dom_mix(int r, U64Vec *out) {
+    static int db[49 + 16], built = 0;
+    if (!built) {
+        // de Bruijn B(7,2) by the standard prefer-smallest Lyndon-word construction
+        int n = 0, a[4] = {0, 0, 0, 0};
+        // generate Lyndon words of length dividing 2 over alphabet 7
+        for (int x = 0; x < 7; x++) {
+            db[n++] = x;                       // Lyndon word "x" (length 1)
+            for (int y = x + 1; y < 7; y++) db[n++] = x, db[n++] = y;  // Lyndon words "xy", x<y (length 2)
+        }
+        (void)a;
+        for (int i = 0; i < 16; i++) db[n + i] = db[i];
+        built = 1;
+    }
+    if (r == 0) return;
+    for (int bc = 0; bc < 122; bc++) {
+        if (!(spec_is_pent_bc(bc) || bc % 7 == 3)) continue;
+        for (int off = 0; off < 49; off += (r < 3 ? 7 : 1)) {
+            int d[15];
+            for (int k = 0; k < 15; k++) d[k] = db[off + k];
+            uint64_t h = spec_mk(r, bc, d);
+            if (spec_valid(h)) uv_push(out, h);
+        }
+    }
+}
+// FINE(r): level 0 = whole family closed under one neighbour step; higher levels are thinned; all levels include POLAR(r,3) and MIX(r)
 //   level 1: RUN over pentagon base cells + every 5th, run lengths in steps of 2
 //   level 2: RUN over pentagon base cells + every 17th, run lengths in steps of 4, not closed
 static void dom_fine_raw(int r, int level, U64Vec *out) {
     dom_pent(r, level >= 2 ? 1 : 2, out);
     dom_polar(r, 3, out);
+    dom_mix(r, out);
     if (level == 0)
         dom_run(r, 1, 1, out);
     else if (level == 1)
@@ -123,6 +152,7 @@ static void dom_fine_raw(int r, int level, U64Vec *out) {
 static void dom_fine(int r, int level, U64Vec *out) {
     dom_pent(r, level >= 2 ? 1 : 2, out);
     dom_polar(r, 3, out);
+    dom_mix(r, out);
     if (level == 0)
         dom_run(r, 1, 1, out);
     else if (level == 1)
